@@ -545,6 +545,9 @@ func (b *Block) Weight() float64 {
 
 /*Clear - clear the block */
 func (b *Block) Clear() {
+	// SetPreviousBlock writes the link under the same mutex
+	b.ticketsMutex.Lock()
+	defer b.ticketsMutex.Unlock()
 	b.PrevBlock = nil
 }
 
